@@ -2661,6 +2661,22 @@ class TensorDict(TensorDictBase):
         if safe and (new_key in self.keys(include_nested=True)):
             raise KeyError(f"key {new_key} already present in TensorDict.")
 
+        new_key_tuple = (new_key,) if isinstance(new_key, str) else new_key
+        old_key_tuple = (old_key,) if isinstance(old_key, str) else old_key
+        if new_key_tuple[: len(old_key_tuple)] == old_key_tuple:
+            # eg: td.rename_key_("a", ("a", "b")): the entry moves below its own former key.
+            # It must be detached first, otherwise it is written into itself (or into one of
+            # its own descendants) and is lost when the old key is deleted.
+            value = self.get(old_key, default=NO_DEFAULT)
+            self.del_(old_key)
+            self._set_tuple(
+                new_key_tuple,
+                value,
+                inplace=False,
+                validated=True,
+                non_blocking=False,
+            )
+            return self
         if isinstance(new_key, str):
             self._set_str(
                 new_key,
@@ -2677,7 +2693,6 @@ class TensorDict(TensorDictBase):
                 validated=True,
                 non_blocking=False,
             )
-        new_key_tuple = (new_key,) if isinstance(new_key, str) else new_key
         if not (
             isinstance(old_key, tuple)
             and old_key[: len(new_key_tuple)] == new_key_tuple
